@@ -3,6 +3,7 @@ The concrete model behind `Rooc.Props.C01.c01_counterexample`: a bounds map with
 makes `linearize_extreme` prune the Boolean operand; the port is run symbolically, for every ordered field.
 -/
 import Rooc.Proofs.LinMain
+import Rooc.Proofs.ExpLemmasDefined
 
 set_option linter.unusedSectionVars false
 set_option linter.unusedSimpArgs false
@@ -275,6 +276,102 @@ theorem defined_needed :
     simp only [exUndef, List.mem_singleton] at hc
     subst hc
     exact ⟨rfl, FG_bin.mpr ⟨rfl, FG_num _, FG_bin.mpr ⟨rfl, FG_var.mpr sx, FG_num _⟩⟩, FG_num _⟩
+
+/-! ### … and finite literals do not suffice: the linearizer's own `0 * _` shortcut -/
+
+/-- `min x  s.t.  c: 0 * (x / 0) ≤ 1`, `x` a free real.  Every literal is finite.  Since rooc 9f62afd `simplify`
+keeps the product, but `Exp::linearize` on a product with the constant factor `0` returns the constant `0`
+without visiting the other factor: the division by zero is never reported and the row is `0 ≤ 1`.
+(Real code, HEAD 8a8f98f: `min x s.t. 0 * (x / 0) <= 1, x >= 2` gives `0 <= 1`, `x >= 2`, optimum 2.) -/
+def exUndefDivL : Exp (Ext K) := .bin .mul (.num (.fin 0)) (.bin .div (.var "x") (.num (.fin 0)))
+
+def exUndefDivC : Constraint (Ext K) :=
+  { name := "c", lhs := exUndefDivL, cmp := .le, rhs := .num (.fin 1), isAssert := false }
+
+def exUndefDiv : Model (Ext K) :=
+  { optType := .min, objective := .var "x", constraints := [exUndefDivC],
+    domain := [{ name := "x", ty := .real .ninf .pinf, usage := 1 }] }
+
+theorem exUndefDiv_norm_lhs : normalizeExp (exUndefDivL : Exp (Ext K)) = some exUndefDivL := by
+  simp [exUndefDivL, normalizeExp, flattenFuel, flattenF, simplify, mulCore, divCore, isNumEq, mayBeUndefined,
+    ext_eq_fin, Arith.eq, Ext.eq, isNonzeroLit, Arith.zero, flattenF.flattenMulRest, isAddSub]
+
+theorem exUndefDiv_norm_sub : normalizeExp (.bin .sub exUndefDivL (.num (.fin 1)) : Exp (Ext K))
+    = some (.bin .sub exUndefDivL (.num (.fin 1))) := by
+  simp [exUndefDivL, normalizeExp, flattenFuel, flattenF, simplify, mulCore, divCore, subCore, isNumEq,
+    mayBeUndefined, ext_eq_fin, Arith.eq, Ext.eq, isNonzeroLit, Arith.zero, flattenF.flattenMulRest, isAddSub]
+
+def exUndefDivRow : MidRow (Ext K) := { name := "c", lhs := [], rhs := Ext.fin 1, cmp := .le }
+
+theorem exUndefDiv_proc (s : St (Ext K)) : processConstraint (exUndefDivC : Constraint (Ext K)) s
+    = .ok ((), { s with rows := s.rows ++ [exUndefDivRow] }) := by
+  unfold processConstraint dispatch exUndefDivC
+  simp only [bind_ok, get_ok, simplifyFlat_ok]
+  refine ⟨_, _, ⟨_, exUndefDiv_norm_lhs, rfl⟩, _, _, ⟨_, exUndef_norm_rhs, rfl⟩, ?_⟩
+  simp only [Bool.false_eq_true, if_false, bind_ok, get_ok]
+  refine ⟨s, s, rfl, ?_⟩
+  have : tryNormalize s.domain (exUndefDivL : Exp (Ext K)) .le (.num (.fin 1)) = none := by
+    simp [tryNormalize, isLogicValue, exUndefDivL]
+  simp only [this]
+  rw [emitConstraint_ok]
+  refine ⟨_, ⟨[], Ext.fin (-1)⟩, s, exUndefDiv_norm_sub, ?_, ?_⟩
+  · simp [exUndefDivL, linExp, bind_ok, pure_ok, Arith.eq, Ext.eq, Arith.zero, ar_zero]
+    simp [Ctx.mergeSub, Ctx.fromRhs, Ctx.addRhs, ar_zero, Ctx.new, Ext.add, Ext.neg, Arith.zero, Arith.add, Arith.neg]
+  · simp [exUndefDivRow, Ext.neg, Arith.neg]
+
+theorem exUndefDiv_drain (s : St (Ext K)) (hs : s.queue = (exUndefDiv : Model (Ext K)).constraints) :
+    drain drainFuel s = .ok ((), { s with queue := [], rows := s.rows ++ [exUndefDivRow] }) := by
+  have h1 : drainFuel = 999998 + 1 + 1 := rfl
+  rw [h1, drain_succ]
+  simp only [bind_ok, get_ok]
+  refine ⟨s, s, rfl, ?_⟩
+  simp only [hs, exUndefDiv, bind_ok, set_ok]
+  refine ⟨_, _, rfl, _, _, exUndefDiv_proc _, ?_⟩
+  rw [drain_succ]
+  simp only [bind_ok, get_ok]
+  exact ⟨_, _, rfl, by simp [pure_ok]⟩
+
+noncomputable def exUndefDivLM : LinModel (Ext K) :=
+  assemble exUndefDiv (Ctx.fromVar "x" Arith.one)
+    { queue := [], rows := [exUndefDivRow], domain := (exUndefDiv : Model (Ext K)).domain, bounds := [] }
+
+theorem exUndefDiv_ok :
+    linearizeWith (exUndefDiv : Model (Ext K)) [] (exUndefDiv : Model (Ext K)).domain = .ok exUndefDivLM := by
+  let s0 : St (Ext K) := { queue := (exUndefDiv : Model (Ext K)).constraints, domain := (exUndefDiv : Model (Ext K)).domain, bounds := [] }
+  refine (linearizeWith_ok_iff _ _ _ _).mpr
+    ⟨.var "x", s0, Ctx.fromVar "x" Arith.one, s0, _, ?_, ?_, exUndefDiv_drain s0 rfl, rfl⟩
+  · simp [simplifyFlat, normalizeExp, flattenFuel, flattenF, simplify, pure_ok, exUndefDiv, s0]
+  · simp [linExp, pure_ok]
+
+theorem exUndefDiv_linFeasible (ρ : String → K) : linFeasible (exUndefDivLM : LinModel (Ext K)) ρ = true := by
+  simp [exUndefDivLM, exUndefDivRow, assemble, linFeasible, exUndefDiv, dedupNames, sortStr, insertSortedDup,
+    inDomain, geExt, leExt, rowHolds, cmpK, extractCoeffs, dotK]
+
+theorem exUndefDiv_not_srcFeasible (ρ : String → K) : ¬ srcFeasible (exUndefDiv : Model (Ext K)) ρ = true := by
+  intro h
+  have := ((srcFeasible_iff _ _).mp h).1 exUndefDivC (by simp [exUndefDiv])
+  simp [constraintHolds, exUndefDivC, exUndefDivL, eval, binVal] at this
+
+/-- **finite literals do not replace definedness**: `c: 0 * (x / 0) ≤ 1` (all literals finite) is undefined at
+every assignment; the linear model is the row `0 ≤ 1` and accepts every assignment. -/
+theorem defined_needed_finite :
+    ∃ (m : Model (Ext K)) (b : BoundsMap (Ext K)) (d : List (DomVar (Ext K))) (lm : LinModel (Ext K)),
+      linearizeWith m b d = .ok lm ∧ DomRel m d ∧ BoxEnforced b d ∧
+      (∀ c ∈ m.constraints, c.isAssert = false ∧ FG true (inScope d) c.lhs ∧ FG true (inScope d) c.rhs ∧
+        finiteLits c.lhs = true ∧ finiteLits c.rhs = true) ∧
+      (∀ ρ : String → K, ¬ srcFeasible m ρ = true) ∧ (∀ ρ : String → K, linFeasible lm ρ = true) := by
+  have sx : inScope (exUndefDiv : Model (Ext K)).domain "x" :=
+    ⟨{ name := "x", ty := .real .ninf .pinf, usage := 1 }, by simp [exUndefDiv], rfl, by simp⟩
+  refine ⟨exUndefDiv, [], exUndefDiv.domain, exUndefDivLM, exUndefDiv_ok, ⟨by simp [exUndefDiv], fun _ h => h, ?_, ?_⟩,
+    ?_, ?_, exUndefDiv_not_srcFeasible, exUndefDiv_linFeasible⟩
+  · intro ρ h; exact ((srcFeasible_iff _ ρ).mp h).2
+  · intro dv hdv hu; exact ⟨dv, hdv, rfl, hu⟩
+  · intro ρ _ n bd _ hl; simp [lookupB] at hl
+  · intro c hc
+    simp only [exUndefDiv, List.mem_singleton] at hc
+    subst hc
+    exact ⟨rfl, FG_bin.mpr ⟨rfl, FG_num _, FG_bin.mpr ⟨rfl, FG_var.mpr sx, FG_num _⟩⟩, FG_num _,
+      by simp [exUndefDivC, exUndefDivL, finiteLits, isFin], by simp [exUndefDivC, finiteLits, isFin]⟩
 
 /-! ### a decidable sufficient condition for definedness on the piecewise-linear fragment -/
 
